@@ -1548,12 +1548,15 @@ class rate_limit(Stream):
 
     @gen.coroutine
     def update(self, x, who=None, metadata=None):
+        # the element is held while it waits for its slot and is delivered
+        self._retain_refs(metadata)
         now = time()
         old_next = self.next
         self.next = max(now, self.next) + self.interval
         if now < old_next:
             yield gen.sleep(old_next - now)
         yield self._emit(x, metadata=metadata)
+        self._release_refs(metadata)
 
 
 @Stream.register_api()
